@@ -94,6 +94,13 @@ def cases():
                 ("call", "TypeError"), "result_or_OLD_parameter")
             add("param_{}/require+ensure/{}".format(reserved, kind), {"D": "icontract.ensure(cond_true)", "R": "icontract.require(cond_true)"},
                 kind, params, ["R", "D"], args, ("call", "TypeError"), "result_or_OLD_parameter")
+            if not single:
+                # keyword-only / defaulted forms of the parameter, supplied or left to its default
+                for form, call in (("x, *, {}=None".format(reserved), "1"), ("x, *, {}=None".format(reserved), "1, {}=2".format(reserved)),
+                                   ("x, {}=None".format(reserved), "1"), ("x, *rest, {}=3".format(reserved), "1, 2"),
+                                   ("{}, /, x".format(reserved), "1, 2")):
+                    add("param_{}_form/{}/{}/{}".format(reserved, form.replace(" ", ""), call.replace(" ", ""), kind), {"D": "icontract.ensure(cond_true)"},
+                        kind, form, ["D"], call, ("call", "TypeError"), "result_or_OLD_parameter")
             # with preconditions only such a parameter is legal
             add("param_{}/require_only_ok/{}".format(reserved, kind), {"R": "icontract.require(cond_true)"}, kind, params, ["R"], args,
                 ("ok",), "control")
